@@ -90,17 +90,17 @@ def gen_histories(ctx, methods, icls, nvec, enabled):
             if is_hot(m, icls):
                 # the first vector runs outsider-first on a fresh world; further vectors share one
                 step = len(ROLES) + 1 if m.origin == "own" else len(ROLES)
-                hists.append(dict(audit=audit, zero=False, surface=False, calls=calls[:step]))
+                hists.append(dict(warm=True, audit=audit, zero=False, surface=False, calls=calls[:step]))
                 index.append(ix[:step])
                 if len(calls) > step:
-                    hists.append(dict(audit=audit, zero=False, surface=False, calls=calls[step:]))
+                    hists.append(dict(warm=True, audit=audit, zero=False, surface=False, calls=calls[step:]))
                     index.append(ix[step:])
             else:
                 cold += calls
                 cold_ix += ix
         B = 300
         for i in range(0, len(cold), B):
-            hists.append(dict(audit=audit, zero=False, surface=False, calls=cold[i:i + B]))
+            hists.append(dict(warm=True, audit=audit, zero=False, surface=False, calls=cold[i:i + B]))
             index.append(cold_ix[i:i + B])
     # an unknown method and an unknown contract method name
     hists.append(dict(audit=False, zero=False, surface=True,
@@ -122,7 +122,7 @@ def case_literal(contract, method, typed, admin, self_, o):
 
 def cfg_current_literal(known):
     open_flags = [n for n, fid in FLAG_FINDING.items() if fid in known]
-    return ("{| d_dispatch_all := %s; d_add_unjournaled := %s; d_unguarded := %s |}"
+    return ("{| d_dispatch_all := %s; d_add_unjournaled := %s; d_unguarded := %s; d_guard_memo := [] |}"
             % (gbool(any(n in open_flags for n in (1, 2, 3, 4))), gbool(1 in open_flags),
                glist([n for n in open_flags if n >= 10], lambda n: "%d%%N" % n)))
 
@@ -290,7 +290,7 @@ def run(ctx):
             if v[0] == 0:
                 continue
             what = describe(entry, ob)
-            rep = dict(property="C17", driver="surface", history=dict(audit=hists[hn].get("audit", False), zero=hists[hn].get("zero", False),
+            rep = dict(property="C17", driver="surface", history=dict(warm=hists[hn].get("warm", False), audit=hists[hn].get("audit", False), zero=hists[hn].get("zero", False),
                                                                         surface=False, calls=hists[hn]["calls"][:cn + 1]),
                        failing_call=cn, obs=ob, verdict=v, what=what)
             if v[0] == 2:
